@@ -422,6 +422,10 @@ func (c *RPCClient) GetCoordinate(node string) (*coordinate.Coordinate, error) {
 
 type monitorHandler struct {
 	client *RPCClient
+	// l guards closed and init and makes "send to the subscriber unless
+	// closed" atomic with respect to Cleanup, which closes the subscriber's
+	// channel from another goroutine (Stop, Close).
+	l      sync.Mutex
 	closed bool
 	init   bool
 	initCh chan<- error
@@ -431,17 +435,25 @@ type monitorHandler struct {
 
 func (mh *monitorHandler) Handle(resp *responseHeader) {
 	// Initialize on the first response
+	mh.l.Lock()
 	if !mh.init {
 		mh.init = true
 		mh.initCh <- strToError(resp.Error)
+		mh.l.Unlock()
 		return
 	}
+	mh.l.Unlock()
 
 	// Decode logs for all other responses
 	var rec logRecord
 	if err := mh.client.dec.Decode(&rec); err != nil {
 		log.Printf("[ERR] Failed to decode log: %v", err)
 		mh.client.deregisterHandler(mh.seq)
+		return
+	}
+	mh.l.Lock()
+	defer mh.l.Unlock()
+	if mh.closed {
 		return
 	}
 	select {
@@ -452,6 +464,8 @@ func (mh *monitorHandler) Handle(resp *responseHeader) {
 }
 
 func (mh *monitorHandler) Cleanup() {
+	mh.l.Lock()
+	defer mh.l.Unlock()
 	if !mh.closed {
 		if !mh.init {
 			mh.init = true
@@ -504,6 +518,7 @@ func (c *RPCClient) Monitor(level logutils.LogLevel, ch chan<- string) (StreamHa
 
 type streamHandler struct {
 	client  *RPCClient
+	l       sync.Mutex // see monitorHandler.l
 	closed  bool
 	init    bool
 	initCh  chan<- error
@@ -513,17 +528,25 @@ type streamHandler struct {
 
 func (sh *streamHandler) Handle(resp *responseHeader) {
 	// Initialize on the first response
+	sh.l.Lock()
 	if !sh.init {
 		sh.init = true
 		sh.initCh <- strToError(resp.Error)
+		sh.l.Unlock()
 		return
 	}
+	sh.l.Unlock()
 
 	// Decode logs for all other responses
 	var rec map[string]any
 	if err := sh.client.dec.Decode(&rec); err != nil {
 		log.Printf("[ERR] Failed to decode stream record: %v", err)
 		sh.client.deregisterHandler(sh.seq)
+		return
+	}
+	sh.l.Lock()
+	defer sh.l.Unlock()
+	if sh.closed {
 		return
 	}
 	select {
@@ -534,6 +557,8 @@ func (sh *streamHandler) Handle(resp *responseHeader) {
 }
 
 func (sh *streamHandler) Cleanup() {
+	sh.l.Lock()
+	defer sh.l.Unlock()
 	if !sh.closed {
 		if !sh.init {
 			sh.init = true
@@ -586,6 +611,7 @@ func (c *RPCClient) Stream(filter string, ch chan<- map[string]any) (StreamHandl
 
 type queryHandler struct {
 	client *RPCClient
+	l      sync.Mutex // see monitorHandler.l
 	closed bool
 	init   bool
 	initCh chan<- error
@@ -596,11 +622,14 @@ type queryHandler struct {
 
 func (qh *queryHandler) Handle(resp *responseHeader) {
 	// Initialize on the first response
+	qh.l.Lock()
 	if !qh.init {
 		qh.init = true
 		qh.initCh <- strToError(resp.Error)
+		qh.l.Unlock()
 		return
 	}
+	qh.l.Unlock()
 
 	// Decode the query response
 	var rec queryRecord
@@ -612,18 +641,26 @@ func (qh *queryHandler) Handle(resp *responseHeader) {
 
 	switch rec.Type {
 	case queryRecordAck:
-		select {
-		case qh.ackCh <- rec.From:
-		default:
-			log.Printf("[ERR] Dropping query ack, channel full")
+		qh.l.Lock()
+		if !qh.closed {
+			select {
+			case qh.ackCh <- rec.From:
+			default:
+				log.Printf("[ERR] Dropping query ack, channel full")
+			}
 		}
+		qh.l.Unlock()
 
 	case queryRecordResponse:
-		select {
-		case qh.respCh <- NodeResponse{rec.From, rec.Payload}:
-		default:
-			log.Printf("[ERR] Dropping query response, channel full")
+		qh.l.Lock()
+		if !qh.closed {
+			select {
+			case qh.respCh <- NodeResponse{rec.From, rec.Payload}:
+			default:
+				log.Printf("[ERR] Dropping query response, channel full")
+			}
 		}
+		qh.l.Unlock()
 
 	case queryRecordDone:
 		// No further records coming
@@ -635,6 +672,8 @@ func (qh *queryHandler) Handle(resp *responseHeader) {
 }
 
 func (qh *queryHandler) Cleanup() {
+	qh.l.Lock()
+	defer qh.l.Unlock()
 	if !qh.closed {
 		if !qh.init {
 			qh.init = true
